@@ -204,4 +204,8 @@ theorem backend_decision_eq (b : Backend) (k : CheckerKind) (ps : List Policy) (
   intro p hp hc
   exact candidate_sound b k p q (hw p hp) (hd p hp) wa ws wr hq hc
 
+/-- the behavioural probes of /repo that feed the generated tables this property rests on could all be run
+(a probe that fails leaves its table empty and is named in `Generated.probeFailures`) -/
+theorem probes_ok : ¬ ("sqlRegexDialects" ∈ Generated.probeFailures) ∧ ¬ ("mongo" ∈ Generated.probeFailures) := by decide
+
 end Vakt.C07
